@@ -1,10 +1,10 @@
 (* Property C19: lattice geometry - index maps are bijections and couplings are enumerated exactly.
-   Only statements; every proof is `exact <lemma from Proofs/LatticeP.v, LatticeP2.v or LatticeP3.v>`.
+   Only statements; every proof is `exact <lemma from Proofs/LatticeP.v, LatticeP2.v, LatticeP3.v or LatticeP4.v>`.
    All theorems hold for every dimension (1 + length (Lr lat)), all sizes, every unit cell size and
    every order array that lists distinct sites of the box (regular lattices: all of them; irregular
    lattices: a subset), finite and infinite MPS boundary conditions. *)
 From TenpyV Require Import Base.Prelude Model.Lattice Model.LatticeVals Model.LatticeMulti Model.LatticeTransform.
-From TenpyV Require Import Proofs.LatticeP Proofs.LatticeP2 Proofs.LatticeP3 Proofs.LatticeTransformP.
+From TenpyV Require Import Proofs.LatticeP Proofs.LatticeP2 Proofs.LatticeP3 Proofs.LatticeP4 Proofs.LatticeTransformP.
 Open Scope Z_scope.
 
 (* get_order with priority=None (C-style and every combination of snake flags) enumerates every lattice
@@ -103,6 +103,26 @@ Theorem T19_multi_couplings_exact : forall lat, wf lat -> forall ops, ops_wf lat
   NoDup (multi_ijkl lat ops) /\
   forall ijkl, In ijkl (multi_ijkl lat ops) <-> multi_coupled lat ops ijkl.
 Proof. exact multi_couplings_exact. Qed.
+
+(* Consequence of T19_index_inverse stated the way callers use it: no two MPS indices share a lattice site, and no
+   two existing lattice sites share an MPS index (finite and infinite MPS, regular and irregular lattices). *)
+Theorem T19_index_injective : forall lat, wf lat ->
+  (forall i j s, mps2lat lat i = Some s -> mps2lat lat j = Some s -> i = j) /\
+  (forall s t i, site_exists lat s -> site_exists lat t ->
+     lat2mps lat s = Some i -> lat2mps lat t = Some i -> s = t).
+Proof. exact index_injective. Qed.
+
+(* possible_couplings(u2, u1, -dx) is possible_couplings(u1, u2, dx) with the roles of i and j exchanged (as sets
+   without repetition): the convention behind add_coupling(..., plus_hc=True), `pairs` listing each bond once,
+   and count_neighbors.  Any dimension, boundary conditions and bc_shift (under the hypothesis of
+   T19_couplings_exact), regular and irregular lattices, finite and infinite MPS (where the same
+   representative 0 <= min(i, j) < N_sites is chosen in both directions). *)
+Theorem T19_couplings_reverse : forall lat, wf lat -> forall u1 u2 dx0 dxr,
+  0 <= u1 < Lu lat -> 0 <= u2 < Lu lat ->
+  (open0 lat = true -> Forall (fun s => s = 0) (shiftr lat) \/ Z.abs dx0 < L0 lat) ->
+  forall i j, In (i, j) (coupling_pairs lat u1 u2 dx0 dxr) <->
+              In (j, i) (coupling_pairs lat u2 u1 (- dx0) (map Z.opp dxr)).
+Proof. exact couplings_reverse. Qed.
 
 (* ---- non-vacuity and documented examples ---- *)
 
@@ -243,6 +263,12 @@ Example T19_example_species :
   ms_onsite 3 2 1 0 2 = [(0, 2, [0]); (3, 5, [0])].
 Proof. vm_compute. split; reflexivity. Qed.
 
+(* the reversed couplings of T19_example_couplings / T19_example_irregular: same bonds, i and j exchanged *)
+Example T19_example_reverse :
+  coupling_pairs ex_honey 1 0 1 [1] = [(3, 10); (4, 9); (5, 11); (6, 12); (7, 14); (8, 13)] /\
+  coupling_pairs ex_irregular 0 1 (-1) [0] = [(5, 2); (7, 4); (11, 8); (13, 10)].
+Proof. vm_compute. split; reflexivity. Qed.
+
 Print Assumptions T19_get_order_perm.
 Print Assumptions T19_get_order_priority_perm.
 Print Assumptions T19_index_inverse.
@@ -254,3 +280,5 @@ Print Assumptions T19_multi_couplings_exact.
 Print Assumptions T19_enlarge_keeps_index_map.
 Print Assumptions T19_species_index_bijection.
 Print Assumptions T19_species_pairs.
+Print Assumptions T19_index_injective.
+Print Assumptions T19_couplings_reverse.
